@@ -133,14 +133,20 @@ package s2
 // For a polygon (dimension 2) under the semi-open vertex model the answer is the cell-centre bit XOR the crossing parity
 // over the clipped edges (the same function Loop and Polygon compute); without clipped edges it is the centre bit;
 // points and polylines contain nothing unless the model is closed.
+//@ property C04 C06
 //@ func (q *ContainsPointQuery) shapeContains(clipped *clippedShape, center, p Point) bool
 //@   absmod
 //@   requires q != nil && q.index != nil && q.index.shapes != nil && clipped != nil && q.index.Shape(clipped.shapeID) != nil
 //@   requires vcSharedEndpointsIdentical(q.index.Shape(clipped.shapeID), clipped.edges)
 //@   ensures [no-edges] len(clipped.edges) == 0 ==> result == clipped.containsCenter
 //@   ensures [lower-dimension] len(clipped.edges) > 0 && q.index.Shape(clipped.shapeID).Dimension() != 2 && q.model != VertexModelClosed ==> !result
+//@   ensures [closed-lower-dimension] len(clipped.edges) > 0 && q.index.Shape(clipped.shapeID).Dimension() != 2 && q.model == VertexModelClosed ==>
+//@      result == (exists k int :: 0 <= k && k < len(clipped.edges) && (q.index.Shape(clipped.shapeID).Edge(clipped.edges[k]).V0 == p || q.index.Shape(clipped.shapeID).Edge(clipped.edges[k]).V1 == p))
 //@   ensures [semi-open-polygon] len(clipped.edges) > 0 && q.index.Shape(clipped.shapeID).Dimension() == 2 && q.model == VertexModelSemiOpen ==> result == (clipped.containsCenter != vcShapeParity(q.index.Shape(clipped.shapeID), clipped.edges, center, p, len(clipped.edges)))
+//@   loop 1 (rangeindex int, shape Shape): invariant [none-so-far] forall k int :: 0 <= k && k <= rangeindex ==> !(shape.Edge(clipped.edges[k]).V0 == p || shape.Edge(clipped.edges[k]).V1 == p)
 //@   loop 2 (rangeindex int, inside bool, crosser *EdgeCrosser, shape Shape): invariant [range] -1 <= rangeindex && rangeindex < len(clipped.edges)
 //@   loop 2: invariant [crosser] vcCrosserInv(crosser) && vcSame(crosser.a, center) && vcSame(crosser.b, p)
 //@   loop 2: invariant [chain] (rangeindex >= 0 ==> vcSame(crosser.c, shape.Edge(clipped.edges[rangeindex]).V1)) && (rangeindex < 0 ==> vcSame(crosser.c, Point{}))
 //@   loop 2: invariant [parity] q.model == VertexModelSemiOpen ==> inside == (clipped.containsCenter != vcShapeParity(shape, clipped.edges, center, p, rangeindex+1))
+
+//@ property C04
